@@ -18,7 +18,7 @@ func init() { register("C18", checkC18) }
 // runtime lookups of keys that no engine:"localized" tag declares, with the reason they exist
 var c18UndeclaredKeys = map[string]string{
 	"flows/actions.SayMsgAction/audio_url": "say_msg's audio_url translations are written by the legacy migration (recordings per language); the field is deliberately not offered to translators",
-	"flows/routers.baseRouter/name":         "category names are localizable through baseRouter.EnumerateLocalizables (explicit enumeration, not a struct tag)",
+	"flows/routers.baseRouter/name":        "category names are localizable through baseRouter.EnumerateLocalizables (explicit enumeration, not a struct tag)",
 }
 
 func callsNamed(fn *ssa.Function, objName string) []*ssa.Call {
@@ -741,7 +741,6 @@ func c18R3(p *core.Program, r *core.Report) {
 	}
 	r.Require("localized_fields_declared", nDecl, 10)
 }
-
 
 // embedsNamed: struct n embeds (transitively) the struct with the given qualified name.
 func embedsNamed(n *types.Named, qual string) bool {
